@@ -262,6 +262,41 @@ theorem Sim3_Retr_zero (eps : ℝ) (h0 : 0 ≤ eps) (X : Sim3 ℝ) : Sim3Retr ep
   rw [this]
   unfold Sim3Mul; ext <;> lie_unfold <;> ring
 
+/-! ## histories of in-place updates (statelessness) -/
+
+/-- `Exp(aₙ)·…·Exp(a₁)` for the updates `a₁, …, aₙ` in the order they are applied -/
+noncomputable def expProd (eps : ℝ) (as : List (Vec3 ℝ)) : Quat ℝ :=
+  as.foldl (fun P a => (so3Exp eps a).mul P) Quat.one
+
+theorem SO3_add_history_aux (eps : ℝ) (as : List (Vec3 ℝ)) : ∀ P X : Quat ℝ,
+    as.foldl (fun Y a => SO3Retr eps Y a) (P.mul X) = (as.foldl (fun P a => (so3Exp eps a).mul P) P).mul X := by
+  induction as with
+  | nil => intro P X; rfl
+  | cons a as ih =>
+    intro P X
+    simp only [List.foldl_cons, SO3Retr]
+    rw [← Quat.mul_assoc']
+    exact ih _ X
+
+/-- **`+` over any history**: updating one object by `X ← X + aᵢ` (`add_`, `+=`) for a list of tangent vectors of ANY length
+gives `Exp(aₙ)·…·Exp(a₁)·X`: the state after the history is a function of the initial value and the updates only, so a read
+(`Adj`, `Jinvp`, `Jr`, …) after the history is the read of that value — there is no other state in the model. -/
+theorem SO3_add_history (eps : ℝ) (as : List (Vec3 ℝ)) (X : Quat ℝ) :
+    as.foldl (fun Y a => SO3Retr eps Y a) X = (expProd eps as).mul X := by
+  have := SO3_add_history_aux eps as Quat.one X
+  rwa [Quat.one_mul'] at this
+
+/-- the same with extra trailing components on every update (`X += grad`-style): they never matter -/
+theorem SO3_add_history_extra (eps : ℝ) (as : List (Vec3 ℝ × List ℝ)) (X : Quat ℝ) :
+    as.foldl (fun Y ae => (Y.bind fun Z => SO3Add eps Z (ae.1.toList ++ ae.2))) (some X)
+      = some ((expProd eps (as.map Prod.fst)).mul X) := by
+  rw [← SO3_add_history]
+  induction as generalizing X with
+  | nil => rfl
+  | cons ae as ih =>
+    simp only [List.foldl_cons, List.map_cons, Option.bind_some, SO3_add_eq_Retr]
+    exact ih _
+
 /-! ## Jinvp -/
 
 theorem SO3_Jinvp_eq (eps : ℝ) (X : Quat ℝ) (p : Vec3 ℝ) :
